@@ -47,6 +47,7 @@ type policy struct {
 	focus   int     // function id whose scheduling points switch (-1: none)
 	focusP  float64 // probability of switching at a scheduling point of the focus function
 	maxSw   int     // cap on voluntary switches
+	first   int     // > 0: switch (p = 1/2) at the first `first` scheduling points executed in each function (cold-start groups: whatever is initialised on first use is initialised while several hands are in flight)
 }
 
 type sched struct {
@@ -71,6 +72,7 @@ type sched struct {
 	fault       string
 	lockSw      int
 	foreign     int
+	touch       map[int]int
 	streak      int // consecutive failed lock attempts with no statement executed in between
 	deadlockWhy string
 }
@@ -117,6 +119,17 @@ func (s *sched) hook(fid int) {
 		return
 	}
 	if s.vol >= s.pol.maxSw {
+		return
+	}
+	if s.pol.first > 0 {
+		if s.touch == nil {
+			s.touch = map[int]int{}
+		}
+		c := s.touch[fid]
+		s.touch[fid] = c + 1
+		if c < s.pol.first && s.rng.Chance(0.5) {
+			s.switchTo(w, -1, "y", fid)
+		}
 		return
 	}
 	if s.pol.focus >= 0 {
